@@ -47,3 +47,141 @@ def udListOutput (ref : List Nat) (recs : List (String × List Nat)) : String :=
     String.join (recs.map fun r => udRow (getLine r.1 (ref.map (enc false)) (r.2.map (enc false))))
 
 end Gofasta.Model
+
+namespace Gofasta.Model
+
+/-! ### updown topranking -/
+
+/-- isSiteAmb -/
+def isSiteAmb (p : Nat) (ambs : List (Nat × Nat)) : Bool := ambs.any fun a => a.1 ≤ p && p ≤ a.2
+
+structure WhichWay where
+  qOnly : Nat := 0      -- table[0]
+  shared : Nat := 0     -- table[1]
+  tOnly : Nat := 0      -- table[2]
+  amb : Nat := 0        -- table[3]
+  d : List Nat := []    -- positions of query-only SNPs
+  dPlus : Nat := 0
+  deriving Repr
+
+/-- the two loops of whichWay -/
+def whichWayTable (q t : UDLine) : WhichWay :=
+  let w1 := q.snps.foldl (fun (w : WhichWay) s =>
+    if isSiteAmb s.1 t.ambs then { w with amb := w.amb + 1 }
+    else if t.snps.contains s then { w with shared := w.shared + 1 }
+    else { w with qOnly := w.qOnly + 1, d := w.d ++ [s.1] }) {}
+  t.snps.foldl (fun (w : WhichWay) s =>
+    if isSiteAmb s.1 q.ambs then { w with amb := w.amb + 1 }
+    else if !q.snps.contains s then
+      { w with tOnly := w.tOnly + 1, dPlus := if w.d.contains s.1 then w.dPlus else w.dPlus + 1 }
+    else w) w1
+
+/-- whichWay: none = fails the pairwise ambiguity threshold (threshold = num/den) ; some (direction, distance) -/
+def whichWay (q t : UDLine) (thrNum thrDen : Nat) : Option (Nat × Nat) :=
+  let w := whichWayTable q t
+  let sum := w.qOnly + w.shared + w.tOnly + w.amb
+  if sum > 0 ∧ w.amb * thrDen > thrNum * sum then none else
+  let dir := if w.qOnly = 0 ∧ w.tOnly = 0 then 0 else if w.tOnly = 0 then 1 else if w.qOnly = 0 then 2 else 3
+  some (dir, w.d.length + w.dPlus)
+
+structure UDHit where
+  name : String
+  dist : Nat
+  amb : Nat
+  deriving Repr, Inhabited, DecidableEq
+
+def udLt (a b : UDHit) : Bool := a.dist < b.dist || (a.dist == b.dist && a.amb < b.amb)
+
+def bigN : Nat := 2147483647   -- math.MaxInt32
+
+def sum4 (a : List Nat) : Nat := a.sum
+
+/-- checkArgs: (sizeArray, distArray) in the order same, up, down, side; none = error -/
+def udCheckArgs (sizetotal sizeup sizedown sizeside sizesame : Int) (distall distup distdown distside distpush : Int) :
+    Option (List Nat × List Nat) :=
+  let sizesZero := sizeup = 0 ∧ sizedown = 0 ∧ sizeside = 0 ∧ sizesame = 0
+  let distsZero := distup = 0 ∧ distdown = 0 ∧ distside = 0 ∧ distall = 0
+  if sizetotal = 0 ∧ sizesZero ∧ distpush = 0 ∧ distsZero then none
+  else if (sizetotal ≠ 0 ∧ ¬ sizesZero) ∧ ¬ distsZero ∧ distpush > 0 then none
+  else
+    let sz : List Nat :=
+      if sizetotal > 0 then
+        let q := (sizetotal / 4).toNat
+        [sizetotal.toNat - 3 * q, q, q, q]
+      else if ¬ sizesZero then
+        [sizesame, sizeup, sizedown, sizeside].map fun n => if n = -1 then bigN else n.toNat
+      else [bigN, bigN, bigN, bigN]
+    let ds : List Nat :=
+      if distall > 0 then [0, distall.toNat, distall.toNat, distall.toNat]
+      else if ¬ (distup = 0 ∧ distdown = 0 ∧ distside = 0) then [0, distup.toNat, distdown.toNat, distside.toNat]
+      else [bigN, bigN, bigN, bigN]
+    some (sz, ds)
+
+/-- the round-robin fill of balance, with fuel -/
+def fillLoop : Nat → Nat → List Nat → List Nat → List Nat → List Nat → Nat → List Nat
+  | 0, _, size, _, _, _, _ => size
+  | fuel + 1, total, size, avail, obs, ideal, i =>
+    if avail.sum = 0 then size else
+    let can := obs.getD i 0 > ideal.getD i 0 ∧ avail.getD i 0 > 0
+    let size' := if can then size.set i (size.getD i 0 + 1) else size
+    let avail' := if can then avail.set i (avail.getD i 0 - 1) else avail
+    if size'.sum = total then size' else fillLoop fuel total size' avail' obs ideal ((i + 1) % 4)
+
+/-- balance -/
+def balance (total : Nat) (ideal obs : List Nat) (nofill : Bool) : List Nat :=
+  if (List.range 4).all fun i => obs.getD i 0 ≥ ideal.getD i 0 then ideal else
+  let size := (List.range 4).map fun i => min (obs.getD i 0) (ideal.getD i 0)
+  if nofill then size else
+  let avail := (List.range 4).map fun i => obs.getD i 0 - ideal.getD i 0
+  fillLoop (4 * avail.sum + 8) total size avail obs ideal 0
+
+/-- the k-smallest-distances map of push mode: association list distance -> hits in file order -/
+def pushInsert (k : Nat) (m : List (Nat × List UDHit)) (h : UDHit) : List (Nat × List UDHit) :=
+  let maxKey := (m.map (·.1)).foldl max 0
+  if !(h.dist ≤ maxKey ∨ m.length < k) then m
+  else if m.any (fun e => e.1 == h.dist) then m.map fun e => if e.1 == h.dist then (e.1, e.2 ++ [h]) else e
+  else if m.length = k then (m.filter fun e => e.1 != maxKey) ++ [(h.dist, [h])]
+  else m ++ [(h.dist, [h])]
+
+structure TROpts where
+  sizes : List Nat
+  dists : List Nat
+  nofill : Bool
+  thrNum : Nat
+  thrDen : Nat
+  threshTarg : Nat
+  push : Nat
+  ignore : List String
+
+/-- the four bins (same, up, down, side) of one query -/
+def topRankingQuery (o : TROpts) (q : UDLine) (targets : List UDLine) : List (List UDHit) :=
+  let cands : List (Nat × UDHit) := targets.filterMap fun t =>
+    if t.ambCount > o.threshTarg then none
+    else if o.ignore.contains t.id then none
+    else match whichWay q t o.thrNum o.thrDen with
+      | none => none
+      | some (dir, dist) => some (dir, { name := t.id, dist := dist, amb := t.ambCount })
+  if o.push > 0 then
+    (List.range 4).map fun dir =>
+      let hs := (cands.filter fun c => c.1 == dir).map (·.2)
+      if dir = 0 then hs
+      else sortStable udLt ((hs.foldl (pushInsert o.push) []).flatMap (·.2))
+  else
+    let total := if o.sizes.contains bigN then bigN else o.sizes.sum
+    let bins := (List.range 4).map fun dir =>
+      topKG udLt total (((cands.filter fun c => c.1 == dir).map (·.2)).filter fun h => h.dist ≤ o.dists.getD dir 0)
+    let size := balance total o.sizes (bins.map (·.length)) o.nofill
+    (bins.zip size).map fun (b, s) => b.take s
+
+def trListOutput (rows : List (String × List (List UDHit))) : String :=
+  "query,closestsame,closestup,closestdown,closestside\n" ++ String.join (rows.map fun (qn, bins) =>
+    qn ++ "," ++ joinWith "," (bins.map fun b => joinWith ";" (b.map (·.name))) ++ "\n")
+
+def dirName (d : Nat) : String := match d with | 0 => "same" | 1 => "up" | 2 => "down" | _ => "side"
+
+def trTableOutput (rows : List (String × List (List UDHit))) : String :=
+  "query,direction,distance,target\n" ++ String.join (rows.flatMap fun (qn, bins) =>
+    (bins.zip (List.range 4)).flatMap fun (b, d) => b.map fun h =>
+      joinWith "," [qn, dirName d, toString h.dist, h.name] ++ "\n")
+
+end Gofasta.Model
